@@ -23,6 +23,11 @@ pub struct Report {
   pub assumptions: Vec<String>,
   pub violations: Vec<Violation>,
   pub machinery: Vec<String>,
+  /// vacuity / consistency complaints of the harness about its own run.  With no violation
+  /// reported they are machinery errors; next to reported violations they are consequences of
+  /// the subject's misbehaviour (a path never taken because the subject never takes it any
+  /// more) and must not turn a verdict into a machinery failure
+  pub soft: Vec<String>,
   pub evaluations: u64,
   pub distinct: u64,
   pub samples: Vec<J>,
@@ -44,6 +49,7 @@ impl Report {
       assumptions: Vec::new(),
       violations: Vec::new(),
       machinery: Vec::new(),
+      soft: Vec::new(),
       evaluations: 0,
       distinct: 0,
       samples: Vec::new(),
@@ -76,6 +82,10 @@ impl Report {
 
   pub fn machinery_error(&mut self, s: String) {
     self.machinery.push(s);
+  }
+
+  pub fn machinery_soft(&mut self, s: String) {
+    self.soft.push(s);
   }
 
   /// Fold one pool run (a stage of the check) into the report.
@@ -243,6 +253,14 @@ impl Report {
   }
 
   pub fn finish(mut self) -> i32 {
+    if !self.soft.is_empty() {
+      let soft = std::mem::take(&mut self.soft);
+      if self.violations.is_empty() {
+        self.machinery.extend(soft);
+      } else {
+        self.coverage.put("harness_complaints_explained_by_the_violations", J::Arr(soft.iter().map(|m| J::s(m.as_str())).collect()));
+      }
+    }
     if let Ok(out) = std::env::var("GBMC_CHILD_OUT") {
       return self.finish_child(&out);
     }
